@@ -48,8 +48,7 @@ type block struct {
 	Fault    string
 	// PerRoundBits: every near/far assignment per round; otherwise one bit for all rounds.
 	PerRoundBits bool
-	// OnlyMulti: only round sequences of at least two rounds or histories of full length (used to
-	// avoid repeating what a larger block already covers).
+	// MinLen: skip shorter histories (used to avoid repeating what another block already covers).
 	MinLen int
 }
 
@@ -68,7 +67,7 @@ func plan(tier string) []block {
 		{Name: "full alphabet, length<=3, 403 at every request", Cfg: "std", Alphabet: fullAlphabet, MaxLen: 3, Fault: fault403},
 		{Name: "page size 2, core alphabet, length<=3", Cfg: "page2", Alphabet: coreAlphabet, MaxLen: 3, Fault: fault403},
 		{Name: "close/reopen as legacy system notes, core alphabet, length<=3", Cfg: "legacy", Alphabet: coreAlphabet, MaxLen: 3, Fault: fault403},
-		{Name: "dropped connection at every request, core alphabet, length<=2", Cfg: "std", Alphabet: coreAlphabet, MaxLen: 2, Fault: faultDrop},
+		{Name: "dropped connection at every request, core alphabet, length<=3", Cfg: "std", Alphabet: coreAlphabet, MaxLen: 3, Fault: faultDrop},
 		{Name: "COLLIDING id spaces (notes, label events, state events, iids all start at 1), core alphabet, length<=3", Cfg: "collide", Alphabet: coreAlphabet, MaxLen: 3, Fault: fault403},
 	}
 }
